@@ -37,6 +37,8 @@ THEOREMS_FO = [
     "ProbLogProofs.C01FO.C01FO_ground_complete",
     "ProbLogProofs.C01FO.C01FO_assignments_spec",
     "ProbLogProofs.C01FO.C01FO_alternatives_spec",
+    "ProbLogProofs.C01FO.C01FO_vars_spec",
+    "ProbLogProofs.C01FO.C01FO_subst_spec",
     "ProbLogProofs.C01FO.C01FO_atomId_injective",
     "ProbLogProofs.C01FO.C01FO_herbrand_spec",
     "ProbLogProofs.C01FO.C01FO_groups_spec",
